@@ -122,7 +122,7 @@ def random_decide(tier, seed, n=None):
             steps.append({"op": "tick", "d": d})
             probe = rand_probe(r)
             if r.random() < 0.08:  # a caller that writes its header fields into the map under lower-case keys
-                probe["rawkeys"] = 2
+                probe["rawkeys"] = r.choice([2, 3])   # (3: under the canonical key and a lower-case one at once)
             if r.random() < 0.06:  # the same directives on a request the cache never answers from its store
                 if r.random() < 0.5:
                     probe["range"] = 1
